@@ -134,8 +134,19 @@ func runC13One(l *Layout, muts []Mut, opts ReadOpts, st *Stats) (oc c13Outcome, 
 	if opts.MaxSection > 0 {
 		loc += "+limit"
 	}
-	srcA, coreA := sim.NewSource(data, sim.ProfA, sim.Delivery{ErrAt: -1})
+	// how the bytes are delivered is part of the case: it is derived from the medium, not drawn
+	var hsum uint64 = 1469598103934665603
+	for _, b := range data {
+		hsum = (hsum ^ uint64(b)) * 1099511628211
+	}
+	for _, m := range muts {
+		hsum = (hsum ^ uint64(m.Off+int64(m.Val)+int64(len(m.Kind)))) * 1099511628211
+	}
+	dr := NewRng(hsum)
+	delA := sim.Delivery{ErrAt: -1, EOFWithData: dr.Chance(1, 3)}
+	srcA, coreA := sim.NewSource(data, Pick(dr, []string{sim.ProfA, sim.ProfRSA, sim.ProfRSAB}), delA)
 	coreA.Budget = srcBudget(len(data)) * 8
+	rootsFirst := dr.Chance(1, 3)
 	var rd *carv2.Reader
 	var nerr, ierr error
 	var stats carv2.Stats
@@ -143,6 +154,9 @@ func runC13One(l *Layout, muts []Mut, opts ReadOpts, st *Stats) (oc c13Outcome, 
 		rd, nerr = carv2.NewReader(srcA.(io.ReaderAt), opts.Options()...)
 		if nerr != nil {
 			return
+		}
+		if rootsFirst {
+			rd.Roots() // a caller that looked at the roots before inspecting
 		}
 		stats, ierr = rd.Inspect(true)
 	})
@@ -158,7 +172,8 @@ func runC13One(l *Layout, muts []Mut, opts ReadOpts, st *Stats) (oc c13Outcome, 
 	}
 	oc.accepted = true
 	// side B: verifying scan
-	res := scanWith("v2br", data, sim.ProfRSB, sim.Delivery{ErrAt: -1}, opts)
+	scanDel := GenDelivery(dr)
+	res := scanWith("v2br", data, Pick(dr, readerProfiles), scanDel, opts)
 	if res.panicV != nil {
 		return oc, viol("medium/panic/v2br@"+loc, "BlockReader panicked: %v", res.panicV)
 	}
